@@ -170,6 +170,16 @@ LITERALS = [
     ('dotted name under group', 'g\n  h.a int = 4', 'g.h.a', 4, None, (I, 32, False)), ('child of a typed node', 'f str = x\n  c int = 1', 'f.c', 1, None, (I, 32, False)),
     ('name with hyphen and digits', 'a-1_b int = 4', 'a-1_b', 4, None, (I, 32, False)), ('trailing comment after unit', 'a float = 1 m # c', 'a', 1.0, 'm', (F, 64, None)),
     ('comment line between', 'g\n  # c\n\n  a int = 2', 'g.a', 2, None, (I, 32, False)), ('de-indent by two levels', 'g\n  h\n    a int = 1\nb int = 2', 'b', 2, None, (I, 32, False)),
+    ('none for an array node', 'a int[3] = none', 'a', None, None, (I, 32, False)), ('none for a matrix node with unit', 'a float32[2,2] = none cm', 'a', None, 'cm', (F, 32, None)),
+    ('comment containing a minus after a unit', 'a float = 3 km  # outer - inner', 'a', 3.0, 'km', (F, 64, None)), ('comment containing a slash after a unit', 'a float = 3 km # a / b', 'a', 3.0, 'km', (F, 64, None)),
+    ('comment containing a star after a unit', 'a float = 3 km # 2 * x', 'a', 3.0, 'km', (F, 64, None)), ('comment containing a plus, no unit', 'a int = 3 # x + y', 'a', 3, None, (I, 32, False)),
+    ('comment containing a minus after a bare string', 'a str = x # y - z', 'a', 'x', None, (S, None, None)),
+    ('float leading point', 'a float = .5', 'a', 0.5, None, (F, 64, None)), ('float trailing point', 'a float = 5.', 'a', 5.0, None, (F, 64, None)), ('float plus sign', 'a float = +2.0', 'a', 2.0, None, (F, 64, None)),
+    ('float capital exponent', 'a float = 1E5', 'a', 1e5, None, (F, 64, None)), ('float point and exponent with unit', 'a float = -.25e1 m', 'a', -2.5, 'm', (F, 64, None)),
+    ('int plus sign', 'a int = +7', 'a', 7, None, (I, 32, False)), ('int leading zeros', 'a int = 007', 'a', 7, None, (I, 32, False)),
+    ('table int column in free notation', 'out table = """\nk int\nx float m\n\n+7 .5\n007 5.\n-2 +2.0\n3 -.25e1\n"""', 'out.k', [7, 7, -2, 3], None, (I, 32, False)),
+    ('table float column in free notation', 'out table = """\nk int\nx float m\n\n+7 .5\n007 5.\n-2 +2.0\n3 -.25e1\n"""', 'out.x', [0.5, 5.0, 2.0, -2.5], 'm', (F, 64, None)),
+    ('table with width suffixes', 'g\n  t table = """\nk uint16\nx float32 cm\n\n1 1.5\n2 .5\n"""', 'g.t.x', [1.5, 0.5], 'cm', (F, 32, None)),
     ('wide indentation', 'g\n        a int = 1\n        b int = 2', 'g.b', 2, None, (I, 32, False)), ('single blank indentation', 'g\n a int = 1\n  c int = 3', 'g.a.c', 3, None, (I, 32, False)),
 ]
 REJECT = [('array with too few values', 'a int[3:] = [1,2]'), ('array with too many values', 'a int[:2] = [1,2,3]'), ('scalar node given an array', 'a int = [1,2]'),
